@@ -21,6 +21,10 @@ For a masked site the initial content of the output buffer is
 The emitted obligation `forall junk1 junk2, site .. junk1 = site .. junk2` is closed by
 `reflexivity`, which cannot succeed for the last form: Gen/MaskedSites.v then does not compile and
 the check reports the site.  Emits Gen/MaskedSites.v.
+
+Second scan (round 2, further down): every allocation that does not initialise memory must be
+completed by a recognised store pattern before the buffer is mentioned again, and no result-cache
+idiom may occur; emits Gen/AllocSites.v (obligations closed by Proof/AllocProofs.v).
 """
 import ast, os, re, sys
 
@@ -392,8 +396,8 @@ def scan(repo):
 
 
 def uninit_allocs(repo, files):
-    """Informational: np.empty / np.empty_like / np.ndarray( allocation sites (not modelled here;
-    whether every cell is written before it is read is checked only by the perturbed runs)."""
+    """np.empty / np.empty_like / np.ndarray( tokens, found by a plain text search that shares no code with
+    scan_allocs: the harness cross-checks that each is one of the classified allocation sites."""
     res = []
     pat = re.compile(r"(?<![\w.])(?:np|numpy)\.(empty_like|empty|ndarray)\s*\(")
     for rel in files:
@@ -514,9 +518,651 @@ def emit(repo):
     return "\n".join(L), files, sites
 
 
+# ============================================================================= second scan:
+# allocations that do not initialise memory, and result caches (C19 round 2)
+#
+# Every call of an allocator that hands out uninitialised cells -- np.empty, np.empty_like,
+# np.ndarray(shape), np.ma.masked_all[_like], as_strided; in Cython also malloc & co and C stack
+# arrays -- is a site.  For each site the statements that follow the allocation in straight-line
+# order are walked until one of the recognised completions is found:
+#
+#   fill    a.fill(v)
+#   full    a[:] = e   /  a[...] = e   (also a[:, :] etc.)
+#   enum    for i, x in enumerate(S): a[i] = e       with a = np.empty(len(S) | (len(S), ..))
+#           for i in range(E): a[i] = e              with a = np.empty(E | (E, ..))
+#   tile    start = 0; for ..: end = start + E; a[start:end] = e; start = end;  assert end == len(a)
+#   recv    comm.Bcast(a, root=R) where the allocation sits in the branch `rank != R`;
+#           comm.Recv(a, ..); comm.Allgather[v]/Allreduce/Alltoall[v](send, a)
+#
+# Statements in between may not mention the buffer except for its metadata (a.shape, a.dtype,
+# a.ndim, a.size, len(a)); the stored expressions may not mention it at all.  Anything else --
+# the buffer read, passed on, returned, aliased, captured, or never completed -- is a
+# TranslatorReject naming the site.  Each accepted site becomes an obligation in Gen/AllocSites.v,
+# closed by Proof/AllocProofs.v:write_before_read and the covering lemma of its pattern.
+UNINIT_ATTRS = {"empty", "empty_like", "masked_all", "masked_all_like", "as_strided"}
+UNINIT_TEXT_RE = re.compile(r"(?<![\w.])((?:[A-Za-z_]\w*\.)*)(empty_like|empty|ndarray|masked_all_like|masked_all|as_strided)\s*\(")
+C_ALLOC_RE = re.compile(r"(?<![\w.])(malloc|realloc|PyMem_Malloc|PyMem_Realloc|PyMem_RawMalloc|PyArray_EMPTY|PyArray_SimpleNew|alloca)\s*\(")
+C_STACK_ARRAY_RE = re.compile(r"^\s*cdef\s+[\w. ]+?\s+\w+\s*\[[^\]:]+\]\s*$", re.M)
+META_ATTRS = {"shape", "dtype", "ndim", "size", "nbytes", "itemsize", "strides"}
+RECV_ARG0 = {"Recv"}
+RECV_ARG1 = {"Allgather", "Allgatherv", "Allreduce", "Alltoall", "Alltoallv", "Scan", "Exscan"}
+
+
+def _numpy_aliases(tree):
+    """names under which the numpy module, resp. its uninitialising allocators, are visible"""
+    mods, funcs = set(NP_NAMES), {}
+    for n in ast.walk(tree):
+        if isinstance(n, ast.Import):
+            for al in n.names:
+                if al.name == "numpy" or al.name.startswith("numpy."):
+                    mods.add(al.asname or al.name.split(".")[0])
+        elif isinstance(n, ast.ImportFrom) and n.module and n.module.split(".")[0] == "numpy":
+            for al in n.names:
+                if al.name == "*":
+                    raise TranslatorReject("`from %s import *` hides which allocators are in scope" % n.module)
+                if al.name in UNINIT_ATTRS or al.name == "ndarray":
+                    funcs[al.asname or al.name] = al.name
+    return mods, funcs
+
+
+def _root_name(node):
+    while isinstance(node, ast.Attribute):
+        node = node.value
+    return node.id if isinstance(node, ast.Name) else None
+
+
+def _uninit_kind(call, mods, funcs):
+    """-> allocator name if `call` allocates uninitialised cells, else None"""
+    f = call.func
+    if isinstance(f, ast.Name) and f.id in funcs:
+        return funcs[f.id]
+    if isinstance(f, ast.Attribute):
+        if f.attr in UNINIT_ATTRS and (call.args or call.keywords):
+            return f.attr                      # whatever it hangs off (np, np.ma, stride_tricks, an alias): fail closed
+        if f.attr == "ndarray" and _root_name(f) in mods:
+            return "ndarray"
+    return None
+
+
+def _mentions_name(node, name):
+    return any(isinstance(n, ast.Name) and n.id == name for n in ast.walk(node))
+
+
+def _only_metadata(stmt, name):
+    """every mention of `name` in stmt is name.shape / name.dtype / ... or len(name), read-only"""
+    parents = {}
+    for n in ast.walk(stmt):
+        for ch in ast.iter_child_nodes(n):
+            parents[id(ch)] = n
+    for n in ast.walk(stmt):
+        if isinstance(n, ast.Name) and n.id == name:
+            if not isinstance(n.ctx, ast.Load):
+                return False
+            par = parents.get(id(n))
+            if isinstance(par, ast.Attribute) and par.attr in META_ATTRS and isinstance(par.ctx, ast.Load):
+                continue
+            if (isinstance(par, ast.Call) and isinstance(par.func, ast.Name) and par.func.id == "len"
+                    and len(par.args) == 1 and par.args[0] is n and not par.keywords):
+                continue
+            return False
+    return True
+
+
+def _is_full_index(sl):
+    def full(x):
+        return ((isinstance(x, ast.Slice) and x.lower is None and x.upper is None and x.step is None)
+                or (isinstance(x, ast.Constant) and x.value is Ellipsis))
+    if full(sl):
+        return True
+    return isinstance(sl, ast.Tuple) and len(sl.elts) > 0 and all(full(e) for e in sl.elts)
+
+
+def _stores_of(node, names):
+    return [n for n in ast.walk(node) if isinstance(n, ast.Name) and n.id in names and isinstance(n.ctx, (ast.Store, ast.Del))]
+
+
+def _has_jump(loop):
+    for st in loop.body:
+        for n in ast.walk(st):
+            if isinstance(n, (ast.Break, ast.Continue, ast.Return, ast.Yield, ast.YieldFrom)):
+                return True
+    return False
+
+
+def _leading_dim(call, kind):
+    """text of the length of the leading axis of the allocated buffer, or None"""
+    if kind in ("empty", "ndarray"):
+        shp = call.args[0] if call.args else next((k.value for k in call.keywords if k.arg == "shape"), None)
+        if shp is None:
+            return None
+        if isinstance(shp, ast.Tuple):
+            return ast.unparse(shp.elts[0]) if shp.elts else None
+        if isinstance(shp, ast.BinOp) and isinstance(shp.op, ast.Add) and isinstance(shp.left, ast.Tuple) and shp.left.elts:
+            return ast.unparse(shp.left.elts[0])          # (n,) + rest
+        return ast.unparse(shp)
+    if kind == "empty_like":
+        proto = call.args[0] if call.args else None
+        return "len(%s)" % ast.unparse(proto) if proto is not None else None
+    return None
+
+
+def _block_index(fn):
+    """id(stmt) -> (parent node, field name, list, index) for every statement of fn"""
+    idx = {}
+    def visit(node):
+        for field in ("body", "orelse", "finalbody"):
+            blk = getattr(node, field, None)
+            if isinstance(blk, list):
+                for i, st in enumerate(blk):
+                    if isinstance(st, ast.stmt):
+                        idx[id(st)] = (node, field, blk, i)
+                        visit(st)
+        for h in getattr(node, "handlers", []) or []:
+            visit(h)
+    visit(fn)
+    return idx
+
+
+def _continuation(stmt, bidx):
+    """statements executed after `stmt` in straight-line order: the rest of its block, then -- while the
+    enclosing statement is an if/with -- the rest of that one's block."""
+    out = []
+    cur = stmt
+    while True:
+        parent, field, blk, i = bidx[id(cur)]
+        out += blk[i + 1:]
+        if isinstance(parent, (ast.If, ast.With)) and id(parent) in bidx:
+            cur = parent
+            continue
+        return out
+
+
+class AllocSite:
+    def __init__(self, **kw):
+        self.__dict__.update(kw)
+
+
+def _reject_site(rel, call, fname, text, why):
+    raise TranslatorReject("%s:%d %s: allocation without initialisation `%s`: %s" % (rel, call.lineno, fname, text, why))
+
+
+def _try_enum_loop(loop, name, lead):
+    """for i, x in enumerate(S): a[i] = e  /  for i in range(E): a[i] = e ; -> (description, size text) or None"""
+    if loop.orelse or _has_jump(loop) or not isinstance(loop.iter, ast.Call) or not isinstance(loop.iter.func, ast.Name):
+        return None
+    it = loop.iter
+    if it.keywords or len(it.args) != 1:
+        return None
+    if it.func.id == "enumerate" and isinstance(loop.target, ast.Tuple) and len(loop.target.elts) == 2 \
+            and isinstance(loop.target.elts[0], ast.Name):
+        ivar, size = loop.target.elts[0].id, "len(%s)" % ast.unparse(it.args[0])
+    elif it.func.id == "range" and isinstance(loop.target, ast.Name):
+        ivar, size = loop.target.id, ast.unparse(it.args[0])
+    else:
+        return None
+    if size != lead:
+        return None
+    if any(n for st in loop.body for n in _stores_of(st, {ivar})):
+        return None
+    store = None
+    for st in loop.body:
+        if not _mentions_name(st, name) or _only_metadata(st, name):
+            continue
+        if store is not None or not isinstance(st, ast.Assign) or len(st.targets) != 1:
+            return None
+        t = st.targets[0]
+        if not (isinstance(t, ast.Subscript) and isinstance(t.value, ast.Name) and t.value.id == name):
+            return None
+        sl = t.slice
+        ok = (isinstance(sl, ast.Name) and sl.id == ivar) or (
+            isinstance(sl, ast.Tuple) and len(sl.elts) >= 2 and isinstance(sl.elts[0], ast.Name)
+            and sl.elts[0].id == ivar and _is_full_index(ast.Tuple(elts=sl.elts[1:], ctx=ast.Load())))
+        if not ok or _mentions_name(st.value, name):
+            return None
+        store = st
+    if store is None:
+        return None
+    return ("every index of the leading axis stored by the loop at line %d (`%s`, %s over %s)"
+            % (loop.lineno, " ".join(ast.unparse(store).split()), ivar, size)), size
+
+
+def _try_tile_loop(loop, name, before, after):
+    """start = 0; for ..: hi = lo + E; a[lo:hi] = e; lo = hi;  then  assert hi == len(a)"""
+    if loop.orelse or _has_jump(loop):
+        return None
+    store = None
+    for k, st in enumerate(loop.body):
+        if not _mentions_name(st, name) or _only_metadata(st, name):
+            continue
+        if store is not None or not isinstance(st, ast.Assign) or len(st.targets) != 1:
+            return None
+        t = st.targets[0]
+        if not (isinstance(t, ast.Subscript) and isinstance(t.value, ast.Name) and t.value.id == name):
+            return None
+        sl = t.slice
+        if isinstance(sl, ast.Tuple) and len(sl.elts) >= 2 and _is_full_index(ast.Tuple(elts=sl.elts[1:], ctx=ast.Load())):
+            sl = sl.elts[0]
+        if not (isinstance(sl, ast.Slice) and sl.step is None and isinstance(sl.lower, ast.Name) and isinstance(sl.upper, ast.Name)):
+            return None
+        if _mentions_name(st.value, name):
+            return None
+        store = (k, st, sl.lower.id, sl.upper.id)
+    if store is None:
+        return None
+    k, st, lo, hi = store
+    if lo == hi or _stores_of(loop.target, {lo, hi}):
+        return None
+    # hi = lo + E before the store, lo = hi after it, both unconditional; no other binding of either in the loop
+    def is_hi_def(s):
+        return (isinstance(s, ast.Assign) and len(s.targets) == 1 and isinstance(s.targets[0], ast.Name)
+                and s.targets[0].id == hi and isinstance(s.value, ast.BinOp) and isinstance(s.value.op, ast.Add)
+                and isinstance(s.value.left, ast.Name) and s.value.left.id == lo)
+    def is_lo_step(s):
+        return (isinstance(s, ast.Assign) and len(s.targets) == 1 and isinstance(s.targets[0], ast.Name)
+                and s.targets[0].id == lo and isinstance(s.value, ast.Name) and s.value.id == hi)
+    his = [j for j, s in enumerate(loop.body) if is_hi_def(s)]
+    los = [j for j, s in enumerate(loop.body) if is_lo_step(s)]
+    if len(his) != 1 or len(los) != 1 or not (his[0] < k < los[0]):
+        return None
+    if len([n for s in loop.body for n in _stores_of(s, {lo, hi})]) != 2:
+        return None
+    # the cursor starts at 0: last statement binding `lo` before the loop, among the straight-line predecessors
+    init = [s for s in before if _stores_of(s, {lo})]
+    if not init:
+        return None
+    s0 = init[-1]
+    if not (isinstance(s0, ast.Assign) and len(s0.targets) == 1 and isinstance(s0.targets[0], ast.Name)
+            and isinstance(s0.value, ast.Constant) and s0.value.value == 0 and type(s0.value.value) is int):
+        return None
+    # closing assertion: the first later statement that mentions the buffer, nothing rebinding hi before it
+    for s in after:
+        if isinstance(s, ast.Assert) and isinstance(s.test, ast.Compare) and len(s.test.ops) == 1 \
+                and isinstance(s.test.ops[0], ast.Eq):
+            sides = [ast.unparse(s.test.left), ast.unparse(s.test.comparators[0])]
+            if hi in sides and ("len(%s)" % name in sides or "%s.shape[0]" % name in sides):
+                return ("cursor loop at line %d (`%s = %s + ..; %s; %s = %s`, %s = 0 at line %d) closed by `%s` at line %d"
+                        % (loop.lineno, hi, lo, " ".join(ast.unparse(st).split()), lo, hi, lo, s0.lineno,
+                           " ".join(ast.unparse(s).split()), s.lineno))
+        if _stores_of(s, {hi, lo}):
+            return None
+        if _mentions_name(s, name) and not _only_metadata(s, name):
+            return None
+    return None
+
+
+def _try_collective(stmt, name, alloc_stmt, bidx):
+    if not (isinstance(stmt, ast.Expr) and isinstance(stmt.value, ast.Call) and isinstance(stmt.value.func, ast.Attribute)):
+        return None
+    call = stmt.value
+    op = call.func.attr
+    if not re.search(r"(?i)comm", ast.unparse(call.func.value)):
+        return None
+    kw = {k.arg: k.value for k in call.keywords if k.arg}
+
+    def is_buf(node):
+        if isinstance(node, ast.Name) and node.id == name:
+            return True
+        return (isinstance(node, (ast.List, ast.Tuple)) and node.elts and isinstance(node.elts[0], ast.Name)
+                and node.elts[0].id == name and not any(_mentions_name(e, name) for e in node.elts[1:]))
+    others = lambda skip: not any(_mentions_name(a, name) for a in list(call.args) + list(kw.values()) if a is not skip)
+    if op == "Bcast":
+        buf = call.args[0] if call.args else kw.get("buf")
+        root = kw.get("root", call.args[1] if len(call.args) > 1 else None)
+        if buf is None or root is None or not is_buf(buf) or not others(buf):
+            return None
+        parent, field, _blk, _i = bidx[id(alloc_stmt)]
+        if not (isinstance(parent, ast.If) and isinstance(parent.test, ast.Compare) and len(parent.test.ops) == 1):
+            return None
+        cmpop = parent.test.ops[0]
+        sides = [ast.unparse(parent.test.left), ast.unparse(parent.test.comparators[0])]
+        r = ast.unparse(root)
+        if r not in sides:
+            return None
+        other = sides[1 - sides.index(r)]
+        if not re.search(r"(?i)rank", other):
+            return None
+        nonroot = (isinstance(cmpop, ast.Eq) and field == "orelse") or (isinstance(cmpop, ast.NotEq) and field == "body")
+        if not nonroot:
+            return None
+        return "receive buffer of `%s` at line %d on the ranks with %s != %s" % (
+            " ".join(ast.unparse(call).split()), stmt.lineno, other, r)
+    if op in RECV_ARG0:
+        buf = call.args[0] if call.args else kw.get("buf")
+    elif op in RECV_ARG1:
+        buf = call.args[1] if len(call.args) > 1 else kw.get("recvbuf")
+    else:
+        return None
+    if buf is None or not is_buf(buf) or not others(buf):
+        return None
+    return "receive buffer of `%s` at line %d" % (" ".join(ast.unparse(call).split()), stmt.lineno)
+
+
+def classify_alloc(call, kind, rel, fn, stmt_of, bidx):
+    text = " ".join(ast.unparse(call).split())
+    fname = fn.name if fn is not None else "<module>"
+    if fn is None:
+        _reject_site(rel, call, fname, text, "at module level (lives for the whole process)")
+    if kind in ("masked_all", "masked_all_like", "as_strided"):
+        _reject_site(rel, call, fname, text, "np.%s gives access to cells nobody wrote; no completion pattern is recognised for it" % kind)
+    st = stmt_of.get(id(call))
+    if not (isinstance(st, ast.Assign) and st.value is call and len(st.targets) == 1 and isinstance(st.targets[0], ast.Name)):
+        _reject_site(rel, call, fname, text, "the buffer is not bound to a plain local name by `name = <allocation>` "
+                     "(it is returned, passed on, stored in an attribute or part of a larger expression)")
+    name = st.targets[0].id
+    for n in ast.walk(fn):
+        if isinstance(n, (ast.Global, ast.Nonlocal)) and name in n.names:
+            _reject_site(rel, call, fname, text, "`%s` is declared global/nonlocal" % name)
+    lead = _leading_dim(call, kind)
+    cont = _continuation(st, bidx)
+    skipped = []
+    for j, t in enumerate(cont):
+        if not _mentions_name(t, name):
+            skipped.append(t)
+            continue
+        if _only_metadata(t, name) and not isinstance(t, (ast.For, ast.While)):
+            skipped.append(t)
+            continue
+        base = dict(rel=rel, line=call.lineno, func=fname, text=text, name=name, kind=kind, done_line=t.lineno)
+        # a.fill(v)
+        if (isinstance(t, ast.Expr) and isinstance(t.value, ast.Call) and isinstance(t.value.func, ast.Attribute)
+                and t.value.func.attr == "fill" and isinstance(t.value.func.value, ast.Name)
+                and t.value.func.value.id == name and len(t.value.args) == 1 and not t.value.keywords
+                and not _mentions_name(t.value.args[0], name)):
+            return AllocSite(pattern="fill", how="`%s` at line %d" % (" ".join(ast.unparse(t).split()), t.lineno), **base)
+        # a[:] = e
+        if (isinstance(t, ast.Assign) and len(t.targets) == 1 and isinstance(t.targets[0], ast.Subscript)
+                and isinstance(t.targets[0].value, ast.Name) and t.targets[0].value.id == name
+                and _is_full_index(t.targets[0].slice) and not _mentions_name(t.value, name)):
+            return AllocSite(pattern="full", how="`%s` at line %d" % (" ".join(ast.unparse(t).split())[:100], t.lineno), **base)
+        if isinstance(t, ast.For):
+            if lead is not None:
+                # nothing between the allocation and the loop may touch what the size is computed from
+                size_names = {n.id for n in ast.walk(ast.parse(lead, mode="eval")) if isinstance(n, ast.Name)} - {"len"}
+                clean = not any(_mentions_name(s, v) for s in skipped for v in size_names)
+                r = _try_enum_loop(t, name, lead) if clean else None
+                if r is not None:
+                    return AllocSite(pattern="enum", how=r[0], **base)
+            r = _try_tile_loop(t, name, skipped, cont[j + 1:])
+            if r is not None:
+                return AllocSite(pattern="tile", how=r, **base)
+        r = _try_collective(t, name, st, bidx)
+        if r is not None:
+            return AllocSite(pattern="recv", how=r, **base)
+        _reject_site(rel, call, fname, text,
+                     "`%s` is used at line %d (`%s`) before every element has provably been written; recognised completions: "
+                     "a.fill(v), a[:] = e, an enumerate/range loop storing every index, a cursor loop closed by an assertion, "
+                     "the receive buffer of a collective" % (name, t.lineno, " ".join(ast.unparse(t).split())[:90]))
+    _reject_site(rel, call, fname, text, "`%s` is never completed on the straight-line path after the allocation" % name)
+
+
+def scan_allocs_py(repo, rel):
+    p = os.path.join(repo, rel)
+    try:
+        with open(p, encoding="utf-8") as f:
+            src = f.read()
+        tree = ast.parse(src)
+    except (OSError, SyntaxError, UnicodeDecodeError) as ex:
+        raise TranslatorReject("%s: cannot parse: %s" % (rel, ex))
+    try:
+        mods, funcs = _numpy_aliases(tree)
+    except TranslatorReject as ex:
+        raise TranslatorReject("%s: %s" % (rel, ex))
+    found = []
+
+    def visit(node, fn, stmt):
+        for ch in ast.iter_child_nodes(node):
+            nfn = ch if isinstance(ch, (ast.FunctionDef, ast.AsyncFunctionDef)) else fn
+            nst = ch if isinstance(ch, ast.stmt) else stmt
+            if isinstance(ch, ast.Call):
+                k = _uninit_kind(ch, mods, funcs)
+                if k is not None:
+                    found.append((ch, k, fn, nst))
+            visit(ch, nfn, nst)
+    visit(tree, None, None)
+    sites = []
+    bcache = {}
+    for call, k, fn, st in found:
+        if fn is not None and id(fn) not in bcache:
+            bcache[id(fn)] = _block_index(fn)
+        sites.append(classify_alloc(call, k, rel, fn, {id(call): st}, bcache.get(id(fn), {})))
+    # cross-check with the text: every allocator token must be one of the classified calls
+    blank = blank_comments_and_strings(src)
+    lines_ok = {c.lineno for c, _k, _f, _s in found}
+    for m in UNINIT_TEXT_RE.finditer(blank):
+        line = blank.count("\n", 0, m.start()) + 1
+        prefix, nm = m.group(1), m.group(2)
+        if nm == "ndarray" and prefix.split(".")[0] not in mods and nm not in funcs:
+            continue
+        if nm != "ndarray" and prefix == "" and nm not in funcs:
+            # a bare name that is not numpy's (a local function called empty(...)): only if it is defined here
+            if any(isinstance(n, (ast.FunctionDef, ast.ClassDef)) and n.name == nm for n in ast.walk(tree)):
+                continue
+        if line not in lines_ok:
+            raise TranslatorReject("%s:%d: `%s%s(` looks like an allocation without initialisation but is not a call the "
+                                   "scanner classified" % (rel, line, prefix, nm))
+    sites.sort(key=lambda s: s.line)
+    return sites
+
+
+def scan_allocs_pyx(repo, rel):
+    """Cython: names and control flow are not analysed, so any uninitialising allocation is rejected."""
+    with open(os.path.join(repo, rel), encoding="utf-8") as f:
+        blank = blank_comments_and_strings(f.read())
+    for rx, what in ((UNINIT_TEXT_RE, "allocation without initialisation"), (C_ALLOC_RE, "C allocation without initialisation"),
+                     (C_STACK_ARRAY_RE, "C stack array (uninitialised)")):
+        for m in rx.finditer(blank):
+            tok = m.group(0).strip()
+            if rx is UNINIT_TEXT_RE and m.group(2) == "ndarray" and not m.group(1):
+                continue
+            raise TranslatorReject("%s:%d: %s `%s` in a Cython source: write-before-read cannot be established there"
+                                   % (rel, blank.count("\n", 0, m.start()) + 1, what, tok[:60]))
+    return []
+
+
+# ----------------------------------------------------------------------------- result caches
+CACHE_DECOS = {"lru_cache", "cache", "cached_property", "memoize", "memoized", "memoise", "cached", "cachedmethod"}
+CACHE_WORD_RE = re.compile(r"(?i)(?:^|_)(cache|cached|memo|memoize|memoized|memoise)(?:_|$)")
+MUTABLE_CTORS = {"dict", "list", "defaultdict", "OrderedDict", "WeakValueDictionary", "WeakKeyDictionary", "Counter", "deque"}
+
+
+def scan_caches_py(repo, rel):
+    """-> list of accepted process-pool globals [(rel, line, func, name)]; rejects every memo idiom by name"""
+    with open(os.path.join(repo, rel), encoding="utf-8") as f:
+        src = f.read()
+    tree = ast.parse(src)
+    shadow_id = any(isinstance(n, (ast.FunctionDef, ast.ClassDef)) and n.name == "id" for n in ast.walk(tree))
+
+    def rej(line, who, what):
+        raise TranslatorReject("%s:%d %s: %s -- results could depend on what the process computed beforehand" % (rel, line, who, what))
+
+    funcs = [n for n in ast.walk(tree) if isinstance(n, (ast.FunctionDef, ast.AsyncFunctionDef))]
+    owner = {}
+    for fn in funcs:
+        for n in ast.walk(fn):
+            owner.setdefault(id(n), fn)          # outermost first is fine for naming
+    for fn in funcs:
+        for d in fn.decorator_list:
+            core = d.func if isinstance(d, ast.Call) else d
+            nm = core.attr if isinstance(core, ast.Attribute) else (core.id if isinstance(core, ast.Name) else None)
+            if nm in CACHE_DECOS:
+                rej(fn.lineno, fn.name, "decorated with @%s (a result cache keyed on argument identity/hash)" % ast.unparse(d))
+        # mutable default used as a memo
+        for a, dflt in zip(reversed(fn.args.args), reversed(fn.args.defaults)):
+            if isinstance(dflt, (ast.Dict, ast.List, ast.Set)) or (
+                    isinstance(dflt, ast.Call) and isinstance(dflt.func, ast.Name) and dflt.func.id in MUTABLE_CTORS):
+                for n in ast.walk(fn):
+                    if (isinstance(n, ast.Subscript) and isinstance(n.value, ast.Name) and n.value.id == a.arg
+                            and isinstance(n.ctx, ast.Store)) or (
+                            isinstance(n, ast.Call) and isinstance(n.func, ast.Attribute) and isinstance(n.func.value, ast.Name)
+                            and n.func.value.id == a.arg and n.func.attr in ("setdefault", "update", "append", "add")):
+                        rej(fn.lineno, fn.name, "mutable default argument `%s` is stored into (a memo that survives the call)" % a.arg)
+    for n in ast.walk(tree):
+        if isinstance(n, ast.Call) and isinstance(n.func, ast.Name) and n.func.id == "id" and not shadow_id:
+            fn = owner.get(id(n))
+            rej(n.lineno, fn.name if fn else "<module>", "`%s`: object identity used as a value (cache key)" % ast.unparse(n))
+        ident = n.id if isinstance(n, ast.Name) else (n.attr if isinstance(n, ast.Attribute) else (
+            n.name if isinstance(n, (ast.FunctionDef, ast.ClassDef)) else (n.arg if isinstance(n, ast.arg) else None)))
+        if ident and CACHE_WORD_RE.search(ident):
+            fn = owner.get(id(n))
+            rej(getattr(n, "lineno", 0), fn.name if fn else "<module>", "identifier `%s` names a cache/memo" % ident)
+    # module-level mutable containers written from inside functions (dict/list memo); sets cannot hold arrays
+    modlevel = {}
+    for st in tree.body:
+        if isinstance(st, ast.Assign) and len(st.targets) == 1 and isinstance(st.targets[0], ast.Name):
+            v = st.value
+            if isinstance(v, (ast.Dict, ast.List, ast.ListComp, ast.DictComp)) or (
+                    isinstance(v, ast.Call) and isinstance(v.func, (ast.Name, ast.Attribute))
+                    and (v.func.id if isinstance(v.func, ast.Name) else v.func.attr) in MUTABLE_CTORS):
+                modlevel[st.targets[0].id] = st.lineno
+    for fn in funcs:
+        local = {a.arg for a in fn.args.args + fn.args.kwonlyargs} | {
+            n.id for n in ast.walk(fn) if isinstance(n, ast.Name) and isinstance(n.ctx, ast.Store)}
+        for n in ast.walk(fn):
+            tgt = None
+            if isinstance(n, ast.Subscript) and isinstance(n.ctx, (ast.Store, ast.Del)) and isinstance(n.value, ast.Name):
+                tgt = n.value.id
+            elif (isinstance(n, ast.Call) and isinstance(n.func, ast.Attribute) and isinstance(n.func.value, ast.Name)
+                  and n.func.attr in ("setdefault", "update", "append", "extend", "insert", "pop", "popitem", "clear", "appendleft")):
+                tgt = n.func.value.id
+            if tgt in modlevel and tgt not in local:
+                rej(n.lineno, fn.name, "module-level container `%s` (line %d) is modified from inside a function: state that "
+                    "outlives the call" % (tgt, modlevel[tgt]))
+    # `global X`: only the process-pool initialiser idiom is accepted
+    pool_inits = set()
+    for n in ast.walk(tree):
+        if isinstance(n, ast.Call):
+            for k in n.keywords:
+                if k.arg == "initializer" and isinstance(k.value, ast.Name):
+                    pool_inits.add(k.value.id)
+    accepted = []
+    for fn in funcs:
+        for st in ast.walk(fn):
+            if not isinstance(st, ast.Global) or owner.get(id(st)) is not fn and st not in fn.body:
+                continue
+            if st not in fn.body:
+                continue
+            params = {a.arg for a in fn.args.args}
+            ok = fn.name in pool_inits
+            for b in fn.body:
+                if isinstance(b, ast.Global) or (isinstance(b, ast.Expr) and isinstance(b.value, ast.Constant)):
+                    continue
+                if isinstance(b, ast.Return) and b.value is None:
+                    continue
+                if (isinstance(b, ast.Assign) and len(b.targets) == 1 and isinstance(b.targets[0], ast.Name)
+                        and b.targets[0].id in st.names):
+                    free = {x.id for x in ast.walk(b.value) if isinstance(x, ast.Name)} - params - NP_NAMES
+                    if not free:
+                        continue
+                ok = False
+            if not ok:
+                rej(st.lineno, fn.name, "`global %s` outside the process-pool initialiser idiom (a function passed as "
+                    "initializer= whose whole body is `global X; X = <its parameter>`)" % ", ".join(st.names))
+            for nm in st.names:
+                accepted.append((rel, st.lineno, fn.name, nm))
+    return accepted
+
+
+CACHE_TEXT_RE = re.compile(r"(?<![\w.])(lru_cache|global\s+\w+|id\s*\()|(?i:(?<![A-Za-z])(?:cache|memo)(?![A-Za-z]))")
+
+
+def scan_caches_pyx(repo, rel):
+    with open(os.path.join(repo, rel), encoding="utf-8") as f:
+        blank = blank_comments_and_strings(f.read())
+    for m in CACHE_TEXT_RE.finditer(blank):
+        raise TranslatorReject("%s:%d: `%s` in a Cython source (cache / process-wide state idiom)"
+                               % (rel, blank.count("\n", 0, m.start()) + 1, m.group(0).strip()))
+    return []
+
+
+def scan_allocs(repo):
+    files = source_files(repo)
+    sites, pool_globals = [], []
+    for rel in files:
+        if rel.endswith(".pyx"):
+            sites += scan_allocs_pyx(repo, rel)
+            pool_globals += scan_caches_pyx(repo, rel)
+        else:
+            sites += scan_allocs_py(repo, rel)
+            pool_globals += scan_caches_py(repo, rel)
+    return files, sites, pool_globals
+
+
+def alloc_summary(s):
+    return {"file": s.rel, "line": s.line, "func": s.func, "call": s.text, "name": s.name, "pattern": s.pattern, "how": s.how}
+
+
+PATTERNS = {
+    # pattern -> (binders, program, number of cells, covering lemma, note)
+    "fill": ("(n : nat) (v : A)", "[WFill v]", "n", "fill_covers", "a.fill(v)"),
+    "full": ("(src : list A)", "[WAll src]", "length src", "full_assign_covers",
+             "a[:] = src (src broadcast to the buffer's shape; NumPy raises on any other shape)"),
+    "recv": ("(msg : list A)", "[WAll msg]", "length msg", "full_assign_covers",
+             "the message fills the receive buffer (MPI semantics: trusted)"),
+    "enum": ("(vals : list A)", "enum_prog vals", "length vals", "enum_covers", "a[i] = vals[i] for every i"),
+    "tile": ("(segs : list (list A))", "tile_prog 0 segs", "length (concat segs)", "tile_covers",
+             "consecutive slices from 0; the closing assertion is the shape equation"),
+}
+
+
+def emit_allocs(repo):
+    files, sites, pool_globals = scan_allocs(repo)
+    L = ["(* GENERATED by translator/sites.py (second scan) -- do not edit.",
+         "   Scanned %d source files under enspara/ (enspara/test excluded; %d .pyx): %d allocations without" % (
+             len(files), sum(1 for f in files if f.endswith(".pyx")), len(sites)),
+         "   initialisation (np.empty / np.empty_like / np.ndarray(shape) ...), one obligation each;",
+         "   0 result-cache idioms (lru_cache, id() keys, memo containers); %d process-pool initialiser globals. *)" % len(pool_globals),
+         "From Coq Require Import List Bool Arith.", "From EV Require Import Alloc AllocProofs.",
+         "Import ListNotations.", ""]
+    for rel, line, fn, nm in pool_globals:
+        L.append("(* process-pool global: %s:%d %s  `global %s` -- set once per worker process by the pool initialiser from the "
+                 "arguments of the call that created the pool *)" % (rel, line, fn, nm))
+    L.append("")
+    used = set()
+    for k, s in enumerate(sites, 1):
+        nm = "alloc_" + _ident(s.rel, s.line)[len("site_"):]
+        while nm in used:
+            nm += "_b"
+        used.add(nm)
+        s.ident = nm
+        binders, prog, ncells, lemma, note = PATTERNS[s.pattern]
+        argl = " ".join(re.findall(r"\((\w+) :", binders))
+        L.append("(* allocation site %d/%d  %s:%d  in %s" % (k, len(sites), s.rel, s.line, s.func))
+        L.append("     %s = %s" % (s.name, _cmt(s.text)))
+        L.append("     completed [%s] by %s" % (s.pattern, _cmt(s.how)))
+        L.append("     model: %s *)" % _cmt(note))
+        L.append("Definition %s (A : Type) %s (junk : list A) : list A :=\n  run (%s) junk." % (nm, binders, prog))
+        L.append("Definition %s_stmt : Prop :=\n  forall (A : Type) %s (junk1 junk2 : list A),\n"
+                 "    length junk1 = %s -> length junk2 = %s ->\n    %s A %s junk1 = %s A %s junk2."
+                 % (nm, binders, ncells, ncells, nm, argl, nm, argl))
+        L.append("Lemma %s_heap_independent : %s_stmt.\nProof.\n  unfold %s_stmt, %s. intros.\n"
+                 "  apply (write_before_read A _ (%s)); [assumption|assumption|apply %s].\nQed."
+                 % (nm, nm, nm, nm, ncells, lemma))
+        if s.pattern == "tile":
+            L.append("Lemma %s_is_concatenation :\n  forall (A : Type) %s (junk : list A),\n"
+                     "    length junk = %s -> %s A %s junk = concat segs.\nProof. intros. unfold %s. apply tile_result; assumption. Qed."
+                     % (nm, binders, ncells, nm, argl, nm))
+        L.append("")
+    L.append("Definition n_alloc_sites : nat := %d." % len(sites))
+    L.append("Definition alloc_site_lines : list nat := [%s]." % "; ".join(str(s.line) for s in sites))
+    L.append("Definition n_pool_globals : nat := %d." % len(pool_globals))
+    L.append("Definition n_cache_idioms : nat := 0.")
+    L.append("Definition n_alloc_scanned_files : nat := %d." % len(files))
+    L.append("")
+    conj, proof = "True", "I"
+    for s in reversed(sites):
+        conj = "%s_stmt /\\ (%s)" % (s.ident, conj)
+        proof = "(conj %s_heap_independent %s)" % (s.ident, proof)
+    L.append("(* every allocation without initialisation in the tree: what is read afterwards does not depend on the heap *)")
+    L.append("Definition all_alloc_sites_statement : Prop :=\n  %s." % conj)
+    L.append("Lemma all_alloc_sites_heap_independent : all_alloc_sites_statement.\nProof. exact %s. Qed." % proof)
+    L.append("")
+    return "\n".join(L), files, sites, pool_globals
+
+
 def translate(repo):
     text, _, _ = emit(repo)
-    return {"Gen/MaskedSites.v": text}
+    atext, _, _, _ = emit_allocs(repo)
+    return {"Gen/MaskedSites.v": text, "Gen/AllocSites.v": atext}
 
 
 if __name__ == "__main__":
@@ -524,7 +1170,13 @@ if __name__ == "__main__":
     text, files, sites = emit(repo)
     if "--print" in sys.argv:
         print(text)
+    elif "--print-allocs" in sys.argv:
+        print(emit_allocs(repo)[0])
     else:
+        _t, _f, asites, pg = emit_allocs(repo)
+        for a in asites:
+            print(alloc_summary(a))
+        print("pool globals:", pg)
         for s in sites:
             print(site_summary(s))
         print(len(files), "files")
